@@ -413,6 +413,21 @@ fn run_case(seed: u64, i: u64, corpus: &Corpus, tier: &str) -> (CaseOut, String,
     }
     return (out, format!("pattern matrix with {n} single-arm deletions"), None);
   }
+  if i % 10 == 8 {
+    // arity / field errors in patterns of every binding construct
+    let base = vcore::exprgen::binder_zoo(&mut rng);
+    let mut heap = samlang_heap::Heap::new();
+    if front::check_project(&mut heap, &Project::single("Zoo", &base).with_std()).errors.has_errors() {
+      out.base_rejected = true;
+      return (out, "binder zoo (base rejected)".into(), None);
+    }
+    let faults = vcore::exprgen::pattern_faults(&base, &mut rng);
+    let n = faults.len();
+    for (op, text) in faults {
+      judge_mutant(&Project::single("Zoo", &text).with_std(), "Zoo", "Zoo", op, "one ill-formed pattern in a binder zoo module", &mut out);
+    }
+    return (out, format!("binder zoo with {n} pattern faults"), None);
+  }
   // base program: generated (2 of 3) or a sample program with its dependencies
   let (label, user, entry): (String, Project, String) = if i % 3 != 0 {
     let pseed = seed.wrapping_mul(1_000_003).wrapping_add(i);
